@@ -9,6 +9,7 @@
 package vstat
 
 import (
+	"bytes"
 	"crypto/sha256"
 	"encoding/binary"
 	"encoding/hex"
@@ -61,8 +62,17 @@ func Guard(site string, f func() *Violation) (v *Violation) {
 }
 
 func trimStack(b []byte) string {
-	if len(b) > 1800 {
-		b = b[:1800]
+	// keep the frames below the panic call
+	if i := bytes.Index(b, []byte("\npanic(")); i >= 0 {
+		b = b[i+1:]
+		if j := bytes.IndexByte(b, '\n'); j >= 0 {
+			if k := bytes.IndexByte(b[j+1:], '\n'); k >= 0 {
+				b = b[j+1+k+1:]
+			}
+		}
+	}
+	if len(b) > 1200 {
+		b = b[:1200]
 	}
 	return string(b)
 }
